@@ -13,17 +13,25 @@ struct ReqFam {
   // cfg = k + 1000 * hra
   static SK make(int cfg) { return SK(static_cast<uint16_t>(cfg % 1000), cfg >= 1000); }
   static std::string cfg_text(int cfg) { return "k=" + std::to_string(cfg % 1000) + (cfg >= 1000 ? " HRA" : " LRA"); }
+#if defined(C08_ITEM_SELFMOVE)
+  static bool allow_rt() { return false; }
+#else
   static bool allow_rt() { return true; }
+#endif
   static int len_quantum(int cfg) { (void)cfg; return 0; }
   static int chunk_quantum(int cfg) { (void)cfg; return 0; }
   static bool has_exact_region() { return true; }
   // the sketch publishes zero error at this rank (within 3k/n of the accurate end, or not in estimation mode)
   static bool exact_claim(const SK& s, double true_rank) { return s.get_rank_lower_bound(true_rank, 3) == s.get_rank_upper_bound(true_rank, 3); }
+#if defined(C08_ITEM_SELFMOVE)
+  static SK roundtrip(const SK& s) { return s; }
+#else
   static SK roundtrip(const SK& s) {
     std::stringstream ss(std::ios::in | std::ios::out | std::ios::binary);
     s.serialize(ss);
     return SK::deserialize(ss);
   }
+#endif
   static int forced_hra;   // -1 random
   static void gen_cfgs(Rng& r, int nsk, std::vector<int>& cfg) {
     const int hra = forced_hra >= 0 ? forced_hra : static_cast<int>(r.below(2));
@@ -37,6 +45,7 @@ struct ReqFam {
   static const double* mixed_cuts() { return nullptr; }
 };
 int ReqFam::forced_hra = -1;
+static std::string FN() { return ReqFam::name(); }   // "req" / "req-string" / "req-selfmove": prefix of keys and counters
 
 const char* property_id() { return "C08"; }
 unsigned case_timeout_s() { return 3000; }
@@ -46,12 +55,12 @@ void final_report() {}
 static void sampled_cell_req(const c08::Cell& c, Rng& r) {
   typedef ReqFam::SK SK;
   const bool hra = c.cfg >= 1000;
-  const std::string ctx = c08::cell_text("req", ReqFam::cfg_text(c.cfg), c);
+  const std::string ctx = c08::cell_text(ReqFam::name(), ReqFam::cfg_text(c.cfg), c);
   describe(ctx);
   // k=4 (the minimum) has its own key class: there the number of sections can never grow (section size cannot shrink
   // below MIN_K), so the error outgrows the n-independent published bounds -- a different defect than a bound failure at k >= 6
-  const std::string kp = (c.cfg % 1000) == 4 ? std::string("req|sampled|min-k-4|")
-                                             : std::string("req|sampled|") + (hra ? "hra|" : "lra|") + (c.merge == 0 ? "single-stream" : (c.merge == 3 ? "merge-into-fresh-then-stream" : "merge-4way")) + "|";
+  const std::string kp = (c.cfg % 1000) == 4 ? std::string(FN() + "|sampled|min-k-4|")
+                                             : std::string(FN() + "|sampled|") + (hra ? "hra|" : "lra|") + (c.merge == 0 ? "single-stream" : (c.merge == 3 ? "merge-into-fresh-then-stream" : "merge-4way")) + "|";
   c08::Truth t = c08::make_truth(c, r);
   // query points: 60 log-spaced towards the accurate end, 40 uniform
   std::vector<size_t> qs;
@@ -79,12 +88,13 @@ static void sampled_cell_req(const c08::Cell& c, Rng& r) {
     if (c.order == 1 || c.order == 2) r.shuffle(stream);
     std::unique_ptr<SK> sk = c08::feed<ReqFam>(c, stream);
     VF_CHECK(sk->get_n() == c.n, kp + "n-not-true-n", ctx + " get_n=" + std::to_string(sk->get_n()));
-    { std::string why; const bool vok = c08::sorted_view_consistent(*sk, c.n, why); VF_CHECK(vok, kp + "sorted-view-not-sorted", ctx + " trial=" + std::to_string(trial) + " " + why); }
+    { std::string why; const bool vok = c08::sorted_view_consistent(*sk, c.n, why, &t.dv);
+      VF_CHECK(vok, kp + (why.find("never an input") != std::string::npos ? "retained-item-not-an-input" : "sorted-view-not-sorted"), ctx + " trial=" + std::to_string(trial) + " " + why); }
     { std::string why; const bool qok = c08::queries_match_fresh_view(*sk, why); VF_CHECK(qok, kp + "query-answer-differs-from-current-sorted-view", ctx + " trial=" + std::to_string(trial) + " " + why); }
     uint64_t ok = 0, tot = 0, nok = 0, ntot = 0;
     for (size_t q : qs) {
       for (int incl = 0; incl < 2; ++incl) {
-        const double est = sk->get_rank(t.dv[q], incl == 1);
+        const double est = sk->get_rank(c08::enc(t.dv[q]), incl == 1);
         const double tr = t.rank(q, incl == 1);
         const double lb = sk->get_rank_lower_bound(est, 3), ub = sk->get_rank_upper_bound(est, 3);
         const bool in = (lb - 1e-12 <= tr) && (tr <= ub + 1e-12);
@@ -109,7 +119,7 @@ static void sampled_cell_req(const c08::Cell& c, Rng& r) {
     frac.add(static_cast<double>(ok) / static_cast<double>(tot));
     if (ntot) frac_near.add(static_cast<double>(nok) / static_cast<double>(ntot));
     pairs += tot; pairs_ok += ok; near_pairs += ntot; near_ok += nok;
-    for (size_t i = 0; i < zq.size(); ++i) zacc[i].add(sk->get_rank(t.dv[zq[i]], true));
+    for (size_t i = 0; i < zq.size(); ++i) zacc[i].add(sk->get_rank(c08::enc(t.dv[zq[i]]), true));
     if (trial + 1 == c.trials) {
       // claimed one-sigma half width at the true rank (depends on k, hra, n and the number of levels only): scale of the sigma floor
       for (size_t i = 0; i < zq.size(); ++i) {
@@ -117,8 +127,8 @@ static void sampled_cell_req(const c08::Cell& c, Rng& r) {
         floor_hw[i] = (sk->get_rank_upper_bound(tr, 1) - sk->get_rank_lower_bound(tr, 1)) / 2;
       }
     }
-    if (sk->is_estimation_mode()) count("req_smp_trials_estimation_mode");
-    count("req_smp_trials");
+    if (sk->is_estimation_mode()) count(FN() + "_smp_trials_estimation_mode");
+    count(FN() + "_smp_trials");
   }
   const double T = c.trials;
   auto thr_of = [&](const c08::Welford& w, double per_trial_pairs) {
@@ -135,18 +145,18 @@ static void sampled_cell_req(const c08::Cell& c, Rng& r) {
   std::vector<double> floors(zq.size());
   for (size_t i = 0; i < zq.size(); ++i) floors[i] = floor_hw[i] / 2;
   c08::mean_rank_test(kp, ctx, t, zq, zacc, floors, c.trials < 50 ? 12.0 : 6.5);   // few trials: Student tails
-  count("req_smp_cells");
-  count(hra ? "req_smp_cells_hra" : "req_smp_cells_lra");
-  if ((c.cfg % 1000) == 4) count("req_smp_cells_min_k");
-  if (c.merge) count("req_smp_cells_merged");
-  if (c.merge == 3) count("req_smp_cells_merge_into_fresh_then_stream");
-  count(std::string("req_smp_cells_") + c08::order_name(c.order));
-  count("req_smp_pairs", pairs);
-  count("req_smp_pairs_near_accurate_end", near_pairs);
-  count("req_smp_pairs_exact_claim", exact_claims);
-  count("req_smp_exact_asserts", exact_true_claims);
-  count("req_smp_pairs_outside_bounds", pairs - pairs_ok);
-  count("req_smp_pairs_near_end_literally_outside_bounds", near_literal_out);
+  count(FN() + "_smp_cells");
+  count(hra ? FN() + "_smp_cells_hra" : FN() + "_smp_cells_lra");
+  if ((c.cfg % 1000) == 4) count(FN() + "_smp_cells_min_k");
+  if (c.merge) count(FN() + "_smp_cells_merged");
+  if (c.merge == 3) count(FN() + "_smp_cells_merge_into_fresh_then_stream");
+  count(std::string(FN() + "_smp_cells_") + c08::order_name(c.order));
+  count(FN() + "_smp_pairs", pairs);
+  count(FN() + "_smp_pairs_near_accurate_end", near_pairs);
+  count(FN() + "_smp_pairs_exact_claim", exact_claims);
+  count(FN() + "_smp_exact_asserts", exact_true_claims);
+  count(FN() + "_smp_pairs_outside_bounds", pairs - pairs_ok);
+  count(FN() + "_smp_pairs_near_end_literally_outside_bounds", near_literal_out);
   sig(mix64(mix64(c.n, static_cast<uint64_t>(c.cfg)), mix64(static_cast<uint64_t>(c.order * 4 + c.merge), pairs_ok)));
   if (getenv("C08_VERBOSE")) fprintf(stderr, "%s\n", res.c_str());
   if (want_sample()) sample("{\"part\":\"sampled\",\"cell\":" + jstr(res) + "}");
@@ -172,7 +182,7 @@ static bool check_exact_region(const ReqFam::SK& s, const std::vector<float>& so
     for (int incl = 0; incl < 2; ++incl) {
       const double tr = static_cast<double>(incl ? atmost : below) / static_cast<double>(n);
       if (!ReqFam::exact_claim(s, tr)) continue;
-      const double est = s.get_rank(v, incl == 1);
+      const double est = s.get_rank(c08::enc(v), incl == 1);
       st.asserts++; if (est_mode) st.asserts_est_mode++;
       checked();
       if (std::fabs(est - tr) > 1e-12) {
@@ -186,10 +196,10 @@ static bool check_exact_region(const ReqFam::SK& s, const std::vector<float>& so
 }
 static void insert_sorted(std::vector<float>& v, float x) { v.insert(std::upper_bound(v.begin(), v.end(), x), x); }
 static void flush_exact(const ExactStats& st) {
-  count("req_exact_asserts", st.asserts);
-  count("req_exact_asserts_estimation_mode", st.asserts_est_mode);
-  count("req_exact_sketches_checked", st.sketches);
-  count("req_exact_sketches_checked_estimation_mode", st.sketches_est_mode);
+  count(FN() + "_exact_asserts", st.asserts);
+  count(FN() + "_exact_asserts_estimation_mode", st.asserts_est_mode);
+  count(FN() + "_exact_sketches_checked", st.sketches);
+  count(FN() + "_exact_sketches_checked_estimation_mode", st.sketches_est_mode);
 }
 
 // plain streams: every n in 1..nmax along growing streams (4 arrival orders, queried after every update) and a fresh,
@@ -199,7 +209,7 @@ static void exact_stream_case(int k, bool hra, Rng& r) {
   const int nmax = T ? 12000 : 3000, nfresh = (T ? 80 : 40) * k;
   const std::string ctx0 = std::string("req exact-region plain stream k=") + std::to_string(k) + (hra ? " HRA" : " LRA");
   describe(ctx0 + " nmax=" + std::to_string(nmax) + " nfresh=" + std::to_string(nfresh));
-  const std::string key = "req|exact-region|single-stream|rank-not-exact-where-zero-error-is-published";
+  const std::string key = FN() + "|exact-region|single-stream|rank-not-exact-where-zero-error-is-published";
   ExactStats st;
   std::vector<float> perm(static_cast<size_t>(nmax));
   for (int i = 0; i < nmax; ++i) perm[static_cast<size_t>(i)] = static_cast<float>(i);
@@ -213,10 +223,10 @@ static void exact_stream_case(int k, bool hra, Rng& r) {
     bool ok = true;
     for (int i = 0; i < nmax && ok; ++i) {
       const float v = order == 0 ? perm[static_cast<size_t>(i)] : order == 1 ? static_cast<float>(i) : order == 2 ? static_cast<float>(nmax - i) : static_cast<float>(r.below(static_cast<uint64_t>(nmax / 8)));
-      s.update(v); insert_sorted(sorted, v);
+      s.update(c08::enc(v)); insert_sorted(sorted, v);
       ok = check_exact_region(s, sorted, k, hra, key, ctx0 + " order=" + onames[order] + " coin_seed=" + std::to_string(seed) + " (queried after every update)", st);
     }
-    count("req_exact_stream_lengths", static_cast<uint64_t>(nmax));
+    count(FN() + "_exact_stream_lengths", static_cast<uint64_t>(nmax));
   }
   {
     std::vector<float> sorted;
@@ -225,14 +235,14 @@ static void exact_stream_case(int k, bool hra, Rng& r) {
       const uint32_t seed = static_cast<uint32_t>(r.next());
       random_utils::random_bit.seed(seed);
       ReqFam::SK s(static_cast<uint16_t>(k), hra);
-      for (int i = 0; i < n; ++i) s.update(perm[static_cast<size_t>(i)]);
+      for (int i = 0; i < n; ++i) s.update(c08::enc(perm[static_cast<size_t>(i)]));
       insert_sorted(sorted, perm[static_cast<size_t>(n - 1)]);
       ok = check_exact_region(s, sorted, k, hra, key, ctx0 + " order=random fresh sketch coin_seed=" + std::to_string(seed), st);
-      count("req_exact_stream_lengths");
+      count(FN() + "_exact_stream_lengths");
     }
   }
   flush_exact(st);
-  count("req_exact_stream_cases");
+  count(FN() + "_exact_stream_cases");
   sig(mix64(mix64(static_cast<uint64_t>(k), hra), st.asserts));
 }
 
@@ -245,7 +255,7 @@ static void exact_merge_case(int k, bool hra, Rng& r) {
   for (int i = 0; i < extra; ++i) n1s.push_back(static_cast<int>(r.range(1, N)));
   const std::string ctx0 = std::string("req exact-region two-sketch merge k=") + std::to_string(k) + (hra ? " HRA" : " LRA");
   describe(ctx0 + " n1 values=" + std::to_string(n1s.size()) + " n2=1.." + std::to_string(N));
-  const std::string key = "req|exact-region|merge-2way|rank-not-exact-where-zero-error-is-published";
+  const std::string key = FN() + "|exact-region|merge-2way|rank-not-exact-where-zero-error-is-published";
   ExactStats st;
   size_t li = 0;
   for (int n1 : n1s) {
@@ -259,10 +269,10 @@ static void exact_merge_case(int k, bool hra, Rng& r) {
     for (int i = 0; i < n1; ++i) pa[static_cast<size_t>(i)] = overlap ? static_cast<float>(r.below(static_cast<uint64_t>(N))) : static_cast<float>(2 * i);
     for (int i = 0; i < N; ++i) pb[static_cast<size_t>(i)] = overlap ? static_cast<float>(r.below(static_cast<uint64_t>(N))) : static_cast<float>(2 * i + 1);
     r.shuffle(pa); r.shuffle(pb);
-    for (float v : pa) { a.update(v); insert_sorted(all, v); }
+    for (float v : pa) { a.update(c08::enc(v)); insert_sorted(all, v); }
     bool ok = true;
     for (int n2 = 1; n2 <= N && ok; ++n2) {
-      b.update(pb[static_cast<size_t>(n2 - 1)]); insert_sorted(all, pb[static_cast<size_t>(n2 - 1)]);
+      b.update(c08::enc(pb[static_cast<size_t>(n2 - 1)])); insert_sorted(all, pb[static_cast<size_t>(n2 - 1)]);
       const int dir = n2 % 3;
       ReqFam::SK c(dir == 1 ? b : a);
       if (dir == 0) c.merge(b);
@@ -270,18 +280,26 @@ static void exact_merge_case(int k, bool hra, Rng& r) {
       else { ReqFam::SK tmp(b); c.merge(std::move(tmp)); }
       ok = check_exact_region(c, all, k, hra, key, ctx0 + " n1=" + std::to_string(n1) + " n2=" + std::to_string(n2) + (dir == 1 ? " b.merge(a)" : dir == 0 ? " a.merge(b)" : " a.merge(move(b))") +
                               (overlap ? " overlapping values" : "") + " coin_seed=" + std::to_string(seed), st);
-      count("req_exact_merge_pairs");
+      count(FN() + "_exact_merge_pairs");
     }
   }
   flush_exact(st);
-  count("req_exact_merge_cases");
+  count(FN() + "_exact_merge_cases");
   sig(mix64(mix64(static_cast<uint64_t>(k), hra ? 3 : 2), st.asserts));
 }
 static const int EXACT_KS[5] = {4, 6, 8, 12, 20};
-static const uint64_t NEXACT = 20;   // 5 k x HRA/LRA x {stream, merge}
+static const uint64_t NEXACT_FULL = 20;   // 5 k x HRA/LRA x {stream, merge}
+static const uint64_t VARIANT_EXACT[4] = {2, 8, 13, 17};   // k=8 LRA stream, k=12 HRA stream, k=12 LRA merge, k=8 HRA merge
 
 // ---- case layout -------------------------------------------------------------------------------
-static const int NEXH_Q = 64, NEXH_T = 640;
+// the non-arithmetic item variants (-DC08_ITEM_STRING / -DC08_ITEM_SELFMOVE) run a reduced case list: no f >= 15 scenarios,
+// sampled cells with n = 1e4 only
+#ifdef C08_ITEM_NONARITH
+static const bool VARIANT = true;
+#else
+static const bool VARIANT = false;
+#endif
+static const int NEXH_Q = VARIANT ? 36 : 64, NEXH_T = VARIANT ? 200 : 640;
 static std::vector<c08::Cell> cells(bool T) {
   std::vector<c08::Cell> v;
   const int tr = T ? 2000 : 120;
@@ -297,14 +315,16 @@ static std::vector<c08::Cell> cells(bool T) {
   v.push_back(c08::Cell{1004, 10000, 1, 0, tr});
   v.push_back(c08::Cell{4, 10000, 1, 1, tr});
   if (T) { v.push_back(c08::Cell{1004, 100000, 1, 0, tr}); v.push_back(c08::Cell{4, 100000, 1, 1, tr}); v.push_back(c08::Cell{1200, 100000, 1, 1, 1000}); v.push_back(c08::Cell{1006, 100000, 1, 0, tr}); }
+  if (VARIANT) { std::vector<c08::Cell> w; for (auto c : v) if (c.n == 10000 && (c.cfg % 1000) != 4) { c.trials = T ? 400 : 60; w.push_back(c); } return w; }
   return v;
 }
-uint64_t num_cases(bool thorough) { return static_cast<uint64_t>(thorough ? NEXH_T : NEXH_Q) + cells(thorough).size() + NEXACT; }
+uint64_t num_cases(bool thorough) { return static_cast<uint64_t>(thorough ? NEXH_T : NEXH_Q) + cells(thorough).size() + (VARIANT ? 4 : NEXACT_FULL); }
 
 void run_case(uint64_t idx, Rng& r) {
   const bool T = G().thorough();
   const uint64_t nexh = static_cast<uint64_t>(T ? NEXH_T : NEXH_Q);
   if (idx < nexh) {
+    if (VARIANT) idx += T ? 32 : 8;   // skip the heaviest windows
     const bool want_merge = (idx % 2) == 1;
     ReqFam::forced_hra = static_cast<int>((idx / 2) % 2);
     int fmin, fmax;
@@ -318,12 +338,14 @@ void run_case(uint64_t idx, Rng& r) {
     c08::exhaustive_case<ReqFam>(r, want_merge, fmin, fmax);
   } else {
     const auto cs = cells(T);
-    if (idx - nexh < cs.size()) sampled_cell_req(cs[idx - nexh], r);
-    else {
-      const uint64_t e = idx - nexh - cs.size();       // 0..19
-      const int k = EXACT_KS[e % 5]; const bool hra = ((e / 5) % 2) == 1;
-      if (e < 10) exact_stream_case(k, hra, r); else exact_merge_case(k, hra, r);
-    }
+    try {
+      if (idx - nexh < cs.size()) sampled_cell_req(cs[idx - nexh], r);
+      else {
+        const uint64_t e = VARIANT ? VARIANT_EXACT[idx - nexh - cs.size()] : idx - nexh - cs.size();       // 0..19
+        const int k = EXACT_KS[e % 5]; const bool hra = ((e / 5) % 2) == 1;
+        if (e < 10) exact_stream_case(k, hra, r); else exact_merge_case(k, hra, r);
+      }
+    } catch (const std::exception& e) { checked(); fail(FN() + "|sampled|exception-in-valid-usage", G().cur_desc + " what=" + e.what()); }
   }
 }
 
